@@ -70,7 +70,7 @@ def scenarios(tier, focus):
     # concretise tx kinds (every entry point appears; the pairing rotates with the scenario index)
     res = []
     for i, s in enumerate(out):
-        reps = len(TX_KINDS) if (tier == "thorough" and focus == "tx") else 1
+        reps = 3 if (tier == "thorough" and focus == "tx") else 1
         for r in range(reps):
             s2 = json.loads(json.dumps(s))
             for p in s2["procs"]:
@@ -82,7 +82,8 @@ def scenarios(tier, focus):
 
 def explore(ctx, scen, maxpre, maxruns=0, shards=None):
     if maxruns == 0 and ctx.tier == "thorough":
-        maxruns = 2500      # per scenario: keeps the thorough tier within minutes
+        # a budget of ~100 000 schedules in all (about 35 ms each, 16 shards): a few minutes
+        maxruns = max(200, min(2500, 100000 // max(1, len(scen))))
     b = ctx.go_build("output")
     shards = shards or min(verif.NCPU, max(1, len(scen)))
     sf = ctx.path("out-scen.ndjson")
